@@ -38,6 +38,7 @@ def boot():
         if not hasattr(mod, attr):
             raise RuntimeError(f'seam error: {mod.__name__}.{attr} no longer exists')
     H.PSUTIL_AVAILABLE = False  # psutil.cpu_percent(interval=0.1) blocks real time, log-only
+    H.asyncio = _AsyncioWithOwnedThreads()
     M.datetime = VDatetime
     _booted = True
 
@@ -108,6 +109,24 @@ class VDatetime:
     @classmethod
     def fromisoformat(cls, s):
         return datetime.fromisoformat(s)
+
+
+class _AsyncioWithOwnedThreads:
+    """bubus.helpers sees this instead of the asyncio module: identical, except that to_thread() (real worker threads, invisible to a
+    virtual loop) becomes an explorer-owned environment wait followed by a synchronous call of the function"""
+
+    def __getattr__(self, name):
+        import asyncio
+        return getattr(asyncio, name)
+
+    @staticmethod
+    async def to_thread(func, /, *args, **kwargs):
+        import asyncio
+        loop = asyncio.get_running_loop()
+        if hasattr(loop, 'pause'):
+            await loop.pause('to_thread')
+            return func(*args, **kwargs)
+        return await asyncio.to_thread(func, *args, **kwargs)
 
 
 def reset_globals(bus_order=None, keep_semaphores=False):
